@@ -3891,11 +3891,16 @@ impl LineBuf {
 				}
 			}
 			Verb::RepeatSubstitute => {
+				let last_line = self.line_count() - 1;
 				let (start_line,end_line) = match motion {
 					MotionKind::Line(n) => (n,n),
 					MotionKind::LineRange(s,e) => (s,e),
-					_ => (0,self.total_lines()),
+					_ => (0,last_line),
 				};
+				if end_line > last_line {
+					// A range that reaches past the last line is invalid: no line is addressed
+					return Ok(())
+				}
 				// Have to temporarily move sub out of last_substitution
 				// Because of mutable borrowing stuff
 				if let Some(sub) = self.last_substitution.take() {
@@ -3906,11 +3911,16 @@ impl LineBuf {
 				}
 			}
 			Verb::Substitute(old, new, flags) => {
+				let last_line = self.line_count() - 1;
 				let (start_line,end_line) = match motion {
 					MotionKind::Line(n) => (n,n),
 					MotionKind::LineRange(s,e) => (s,e),
-					_ => (0,self.total_lines()),
+					_ => (0,last_line),
 				};
+				if end_line > last_line {
+					// A range that reaches past the last line is invalid: no line is addressed
+					return Ok(())
+				}
 				match Regex::new(&old) {
 					Ok(regex) => {
 						self.substitute_lines(start_line, end_line, &regex, &new, flags.contains(SubFlags::GLOBAL));
